@@ -1,4 +1,4 @@
 ---- MODULE MC_sharing ----
 EXTENDS PickleGen, Ops
-Alpha == { O("MARK"), O("STOP"), O("EMPTY_LIST"), O("EMPTY_DICT"), O("EMPTY_SET"), K1, K2, OA("PUT", 0), OA("PUT", 5), OA("GET", 0), OA("GET", 5), O("MEMOIZE"), O("DUP"), O("APPEND"), O("SETITEM"), O("ADDITEMS"), O("TUPLE2"), O("LIST") }
+Alpha == { O("MARK"), O("STOP"), O("EMPTY_LIST"), O("EMPTY_DICT"), O("EMPTY_SET"), K1, K2, OA("PUT", 0), OA("PUT", 1), OA("PUT", 5), OA("GET", 0), OA("GET", 1), OA("GET", 5), O("MEMOIZE"), O("DUP"), O("APPEND"), O("SETITEM"), O("ADDITEMS"), O("TUPLE2"), O("LIST") }
 ====
